@@ -4,8 +4,19 @@ go 1.24.0
 
 toolchain go1.24.1
 
-require github.com/pentops/j5 v0.0.0
+require (
+	github.com/pentops/j5 v0.0.0
+	google.golang.org/protobuf v1.36.6
+)
 
-require github.com/google/uuid v1.6.0 // indirect
+require (
+	buf.build/gen/go/bufbuild/protovalidate/protocolbuffers/go v1.36.6-20250307204501-0409229c3780.1 // indirect
+	github.com/google/uuid v1.6.0 // indirect
+	github.com/iancoleman/strcase v0.3.0 // indirect
+	github.com/shopspring/decimal v1.4.0 // indirect
+	golang.org/x/sys v0.31.0 // indirect
+	google.golang.org/genproto/googleapis/rpc v0.0.0-20250324211829-b45e905df463 // indirect
+	google.golang.org/grpc v1.71.0 // indirect
+)
 
 replace github.com/pentops/j5 => /repo
